@@ -64,7 +64,7 @@ def sr1(prog, rr):
 
 
 # --------------------------------------------------------------------------------------- SC1
-@rule("SC1", ["C01", "C05", "C02"], "a constraint is filed as soft only if it is a soft constraint or the guard wrapper built around one", engine="XS", floor=3)
+@rule("SC1", ["C01", "C05", "C02", "C15"], "a constraint is filed as soft only if it is a soft constraint or the guard wrapper built around one", engine="XS", floor=3)
 def sc1(prog, rr):
     f = prog.method("RandSet", "add_constraint")
     tests = [n.test for n in walk_local(f.node) if isinstance(n, ast.If)]
